@@ -238,6 +238,12 @@ func runShape(c *mc.Ctx, sh shape, br *o4h.Bridge, seed int64, quick bool) {
 					cw.Close()
 					return
 				}
+				if sh.phase == "peer-sent-seed" {
+					// a client that sends a PRNG seed packet of its own (no stock client
+					// does): the bridge's sizes stay governed by the bridge's seed
+					rs.SendRaw(rs.Tx.Seal(ref.Packet(ref.PktSeed, rnd.New(seed, "c09-peer-seed").Bytes(24), 0)))
+					rs.Send([]byte{0x41}, 0)
+				}
 				for {
 					if _, err := rs.RecvOnce(); err != nil {
 						break
@@ -245,6 +251,12 @@ func runShape(c *mc.Ctx, sh shape, br *o4h.Bridge, seed int64, quick bool) {
 				}
 			})
 			conn, realErr = sf.WrapConn(sw)
+			if realErr == nil && sh.phase == "peer-sent-seed" {
+				b := make([]byte, 8)
+				if n, err := conn.Read(b); err != nil || n != 1 || b[0] != 0x41 {
+					realErr = fmt.Errorf("server Read of the client's first byte: n=%d err=%v", n, err)
+				}
+			}
 		} else {
 			s.Spawn("ref-server", func() {
 				rs, refErr = o4h.RefServer(sw, br.ID, o4h.ServerOpts{PadLen: 10, LenSeed: br.Seed, SeparateSeed: false}, refRnd)
@@ -638,7 +650,7 @@ func main() {
 			emit(padScenario(lo, hi))
 		}
 		// negative sizes are "near target" writes: framed length = sampled value - k
-		sizes := []int{0, 1, 20, 21, 22, 1427, 1428, 5000, 20000, -1, -21, -22}
+		sizes := []int{0, 1, 20, 21, 22, 1427, 1428, 5000, 20000, -1, -21, -22, 65000, 65536, 131072}
 		quick := !cfg.Thorough()
 		for _, bias := range []bool{false, true} {
 			for iat := 0; iat <= 2; iat++ {
@@ -656,10 +668,15 @@ func main() {
 						continue
 					}
 					for _, size := range sizes {
+						if size > 60000 && (iat == 2 || (quick && b.no != bs[0].no)) {
+							continue // the very large writes: IAT modes 0 and 1
+						}
 						for _, role := range []string{"server", "client"} {
 							phases := []string{""}
 							if role == "client" {
 								phases = []string{"before-seed", "after-seed"}
+							} else if size == 1428 || size == 20 {
+								phases = []string{"", "peer-sent-seed"}
 							}
 							for _, ph := range phases {
 								sh := shape{role, b.no, iat, bias, size, ph}
